@@ -103,7 +103,10 @@ def check(prop, tier, seed):
     with ctx.Pool(nproc) as pool:
         outs = pool.map(_run_task, [(t, timeout_ms, tier, seed) for t in tasks], chunksize=1)
 
-    os.makedirs(os.path.join(VERIF, "evidence"), exist_ok=True)
+    # evidence of the registered checks is written for /repo only; development runs against a scratch
+    # copy (VERIF_REPO) must not overwrite it
+    evdir = os.path.join(VERIF, "evidence") if os.path.abspath(REPO) == "/repo" else os.path.join(VERIF, "out", "evidence_dev")
+    os.makedirs(evdir, exist_ok=True)
     os.makedirs(os.path.join(VERIF, "replays", prop), exist_ok=True)
 
     n_obl = n_dis = n_inst = 0
@@ -298,7 +301,7 @@ def check(prop, tier, seed):
         "wall_s": round(wall, 3),
         "violations": violations,
     }
-    with open(os.path.join(VERIF, "evidence", f"{prop}.json"), "w") as fh:
+    with open(os.path.join(evdir, f"{prop}.json"), "w") as fh:
         json.dump(evidence, fh, indent=1, default=str)
     for ln in lines:
         print(ln)
